@@ -2,7 +2,7 @@ import FeatModel.Lemmas.C20Step4
 /-! C20 helper lemmas, part 9: the step theorem, histories, and consequences of the invariant -/
 namespace FeatModel.Pool
 
-theorem inv_step {s s' : State} {op : Op} (hi : Inv s) (hg : leakGuard s op) (h : step s op = .ok s') : Inv s' := by
+theorem inv_step {s s' : State} {op : Op} (hi : Inv s) (h : step s op = .ok s') : Inv s' := by
   cases op with
   | new a kind dt it n v => exact inv_new hi h
   | mat a kind dt it r c p v variant => exact inv_mat hi h
@@ -17,17 +17,11 @@ theorem inv_step {s s' : State} {op : Op} (hi : Inv s) (hg : leakGuard s op) (h 
   | destroy a => exact inv_destroy hi h
   | format a v => exact inv_format hi h
   | write a w j i v => exact inv_write hi h
-  | lay l a => exact inv_lay hi hg h
+  | lay l a => exact inv_lay hi h
   | mlay a l kind dt fill => exact inv_mlay hi h
   | ldrop l => exact inv_ldrop hi h
 
-/-- a history in which no live layout object that still holds arrays is overwritten -/
-def Guarded : State → List Op → Prop
-  | _, [] => True
-  | s, op :: ops => leakGuard s op ∧ ∀ s', step s op = .ok s' → Guarded s' ops
-
-theorem inv_run {ops : List Op} {s s' : State} (hi : Inv s) (hg : Guarded s ops) (h : run s ops = .ok s') :
-    Inv s' := by
+theorem inv_run {ops : List Op} {s s' : State} (hi : Inv s) (h : run s ops = .ok s') : Inv s' := by
   induction ops generalizing s with
   | nil => unfold run at h; injection h with h; subst h; exact hi
   | cons op ops ih =>
@@ -35,7 +29,7 @@ theorem inv_run {ops : List Op} {s s' : State} (hi : Inv s) (hg : Guarded s ops)
     split at h
     · cases h
     · rename_i s1 hs
-      exact ih (inv_step hi hg.1 hs) (hg.2 s1 hs) h
+      exact ih (inv_step hi hs) h
 
 theorem slotsIds_none (l : List (Option Cont)) (h : ∀ x ∈ l, x = none) : slotsIds l = [] := by
   induction l with
